@@ -530,6 +530,7 @@ def gen_case(rng, ident: int, kinds=None, perm=None) -> dict:
             'target': rng.choice(['bytesio', 'bytesio', 'file']),
             'dirs': [], 'fname': 'f.sqw', 'title': rand_str(rng),
             'chunk': rng.choice([None] + chunk_choices(npix)), 'ops': ops}
+    case['history'] = gen_history(rng, case['target'])
     if case['target'] == 'file':
         if rng.random() < 0.3:
             case['dirs'] = [rand_str(rng, 1, 80, 'abcdefghijklmnopqrstuvwxyz0123456789_- ') or 'd' for _ in range(rng.randint(1, 3))]
@@ -792,16 +793,21 @@ def case_path(case: dict, tmpdir: str) -> str:
     return os.path.join(d, case['fname'])
 
 
-def build_real(case: dict, tmpdir: str | None):
-    """Run the real builder. -> (bytes, target) where target is the BytesIO or the path"""
+FILE_HISTORIES = ('larger', 'smaller', 'same', 'previous-program', 'replaced')
+STREAM_HISTORIES = ('smaller@0', 'same@0', 'larger@0', 'data@end')
+
+
+def gen_history(rng, target: str):
+    """what the output target already holds before `create` runs (None: a fresh path / empty BytesIO)"""
+    if rng.random() >= (0.5 if target == 'file' else 0.3):
+        return None
+    kind = rng.choice(FILE_HISTORIES if target == 'file' else STREAM_HISTORIES)
+    return {'kind': kind, 'extra': rng.choice([1, 2, 17, 1000, 17280]), 'seed': rng.getrandbits(32)}
+
+
+def _run_builder(case: dict, target):
     from scippneutron.io.sqw import Sqw
 
-    if case['target'] == 'file':
-        target = case_path(case, tmpdir)
-        if os.path.exists(target):
-            os.remove(target)
-    else:
-        target = BytesIO()
     b = Sqw.build(target, title=case['title'], byteorder=case['order'])
     for op in case['ops']:
         k = op['k']
@@ -823,10 +829,102 @@ def build_real(case: dict, tmpdir: str | None):
         b.create()
     else:
         b.create(chunk_size=case['chunk'])
+
+
+def _garbage(seed: int, n: int) -> bytes:
+    return np.random.default_rng(seed).integers(0, 256, max(n, 0), dtype=np.uint8).tobytes()
+
+
+def _rebase_positions(region: bytes, o: str, base: int):
+    """the bytes written into a stream at offset `base`, with the (stream-absolute) block positions of the table
+    turned into positions relative to the start of the written region -> bytes, or None if the table is unreadable"""
+    info, probs = lenient_layout(region, o)
+    if probs or 'descs' not in info:
+        return None
+    out = bytearray(region)
+    c = Cursor(region, o, info['header_len'] + 8)
+    for d in info['descs']:
+        c.char_array(), c.char_array(), c.char_array()
+        if d['pos'] < base:
+            return None
+        out[c.p:c.p + 8] = (d['pos'] - base).to_bytes(8, o)
+        c.p += 16
+    return bytes(out)
+
+
+def build_real(case: dict, tmpdir: str | None):
+    """Run the real builder on its target, after giving the target the HISTORY of the case (an existing larger /
+    smaller / equally long file, a file written by another builder program, a replaced directory entry; a BytesIO
+    that already holds data, positioned at 0 or at its end).
+    -> (bytes, target). For a path: everything the path holds afterwards. For a stream: the bytes the builder
+    wrote (from the position the stream had to the position it has afterwards) with block positions made relative
+    to that start; writes outside that region are recorded in case['_history_problems']."""
+    hist = case.get('history')
+    if hist and hist['kind'] not in (FILE_HISTORIES if case['target'] == 'file' else STREAM_HISTORIES):
+        hist = None  # the target kind was changed after the history was drawn
+    case['_history_problems'] = []
+    case['_base'] = 0
     if case['target'] == 'file':
+        target = case_path(case, tmpdir)
+        if os.path.exists(target):
+            os.remove(target)
+        if hist:
+            kind = hist['kind']
+            if kind == 'previous-program':
+                # the same path written before by another program (more pixels, every call)
+                import random as _r
+
+                other = small_case(_r.Random(hist['seed']), -2, ['P', 'N', 'I', 'S', 'D'], npix=40 + hist['extra'] % 500)
+                other.update(target='file', dirs=case['dirs'], fname=case['fname'], history=None)
+                _run_builder(other, target)
+            else:
+                _run_builder(case, target)
+                n = os.path.getsize(target)
+                size = {'larger': n + hist['extra'], 'smaller': max(0, n - hist['extra']), 'same': n,
+                        'replaced': n + hist['extra']}[kind]
+                if kind == 'replaced':
+                    tmp = target + '.old'
+                    with open(tmp, 'wb') as f:
+                        f.write(_garbage(hist['seed'], size))
+                    os.replace(tmp, target)
+                else:
+                    with open(target, 'wb') as f:
+                        f.write(_garbage(hist['seed'], size))
+        _run_builder(case, target)
         with open(target, 'rb') as f:
             return f.read(), target
-    return target.getvalue(), target
+    if not hist:
+        target = BytesIO()
+        _run_builder(case, target)
+        return target.getvalue(), target
+    dry = BytesIO()
+    _run_builder(case, dry)
+    n = len(dry.getvalue())
+    kind = hist['kind']
+    size = {'smaller@0': max(0, n - hist['extra']), 'same@0': n, 'larger@0': n + hist['extra'], 'data@end': hist['extra']}[kind]
+    before = _garbage(hist['seed'], size)
+    target = BytesIO(before)
+    base = size if kind == 'data@end' else 0
+    target.seek(base)
+    _run_builder(case, target)
+    end = target.tell()
+    whole = target.getvalue()
+    case['_base'] = base
+    if whole[:base] != before[:base]:
+        case['_history_problems'].append(('C12:stream-bytes-before-start-overwritten',
+                                          f'bytes before the start position {base} of the stream were changed'))
+    if whole[end:] != before[end:]:
+        case['_history_problems'].append(('C12:stream-bytes-after-end-overwritten',
+                                          f'bytes after the end {end} of the written region were changed'))
+    region = whole[base:end]
+    if base:
+        reb = _rebase_positions(region, expected_order(case), base)
+        if reb is None:
+            case['_history_problems'].append(('C12:stream-positions', 'block positions written into a stream positioned '
+                                              f'at {base} are not stream-absolute positions inside the written region'))
+        else:
+            region = reb
+    return region, target
 
 
 def effective_ops(case: dict) -> dict:
@@ -1164,8 +1262,13 @@ def structure_violations(case: dict, data: bytes) -> list:
                     out.append((f'C12:block-decode:{n[0]}/{n[1]}', f'block {i} {n} does not decode within its extent: {e}'))
         p = end
     if p < len(data):
-        out.append(('C12:extent-end', f'last extent ends at {p} but the file has {len(data)} bytes'))
-    return out
+        if case.get('history') and case['target'] == 'file':
+            out.append(('C12:stale-bytes-after-rewrite',
+                        f"the path already held a file ({case['history']['kind']}): the last extent ends at {p} but the "
+                        f'path now holds {len(data)} bytes, {len(data) - p} bytes of the earlier content follow the new file'))
+        else:
+            out.append(('C12:extent-end', f'last extent ends at {p} but the file has {len(data)} bytes'))
+    return out + list(case.get('_history_problems') or [])
 
 
 def reader_structure_violations(case: dict, data: bytes, target) -> list:
@@ -1177,7 +1280,7 @@ def reader_structure_violations(case: dict, data: bytes, target) -> list:
     out = []
     o = expected_order(case)
     if hasattr(target, 'seek'):
-        target.seek(0)
+        target.seek(case.get('_base', 0))
     try:
         with warnings.catch_warnings(record=True) as wlist:
             warnings.simplefilter('always')
@@ -1590,7 +1693,7 @@ def reader_content_violations(case: dict, data: bytes, target, tmpdir: str | Non
     blocks = {(d['n0'].decode('utf-8', 'replace'), d['n1'].decode('utf-8', 'replace')): b for d, b in zip(f['descs'], f['blocks'])}
     eff = effective_ops(case)
     if hasattr(target, 'seek'):
-        target.seek(0)
+        target.seek(case.get('_base', 0))
 
     def unit_check(field: str, var, written: str | None):
         u = var.unit
@@ -1807,9 +1910,11 @@ def small_case(rng, ident, kinds_in_order, npix=None) -> dict:
     for op in ops:
         if op['k'] == 'P':
             np_ = op['npix']
-    return {'id': ident, 'order': rng.choice(['native', 'little', 'big']), 'target': rng.choice(['bytesio', 'file']),
-            'dirs': [], 'fname': 'f.sqw', 'title': rand_str(rng, 0, 40),
-            'chunk': rng.choice([None] + chunk_choices(np_)), 'ops': ops}
+    c = {'id': ident, 'order': rng.choice(['native', 'little', 'big']), 'target': rng.choice(['bytesio', 'file']),
+         'dirs': [], 'fname': 'f.sqw', 'title': rand_str(rng, 0, 40),
+         'chunk': rng.choice([None] + chunk_choices(np_)), 'ops': ops}
+    c['history'] = gen_history(rng, c['target']) if ident >= 0 else None
+    return c
 
 
 def corpus_cases(prop: str):
@@ -1902,6 +2007,7 @@ def count_case(ctx, case: dict, size: int) -> None:
             ctx.count('indirect-mode:2d-en')
     if has_non_ascii(case):
         ctx.count('strings:non-ascii')
+    ctx.count('history:' + (case['history']['kind'] if case.get('history') else 'fresh'))
     ctx.count('size:' + ('<1k' if size < 1000 else '<10k' if size < 10000 else '<100k' if size < 100000 else '<1M' if size < 10**6 else '>=1M'))
 
 
@@ -2109,7 +2215,7 @@ def correspond_reader(ctx, cases_data_targets) -> None:
         except DecodeError:
             continue
         if hasattr(target, 'seek'):
-            target.seek(0)
+            target.seek(case.get('_base', 0))
         try:
             cm = Sqw.open(target)
             sqw = cm.__enter__()
